@@ -49,3 +49,10 @@ pub fn k_time_round_inc(h: i8, mi: i8, s: i8, ns: i32, inc: i64, mode: u8) -> Op
           t.round(TimeRound::new().smallest(Unit::Hour).mode(m).increment(inc)).is_ok(),
           t.round(TimeRound::new().smallest(Unit::Millisecond).mode(m).increment(inc)).is_ok()))
 }
+
+/// symbolic increments for the types whose increment is not validated against a table
+pub fn k_sd_round_inc(s: i64, ns: i32, inc: i64, mode: u8) -> Option<Option<(i64, i32)>> {
+    let d = mksdur(s, ns)?;
+    let m = mode_of(mode)?;
+    Some(d.round(SignedDurationRound::new().smallest(Unit::Second).mode(m).increment(inc)).ok().map(|r| (r.as_secs(), r.subsec_nanos())))
+}
